@@ -1,6 +1,7 @@
 import Nlmodel.Driver.Proto
 import Nlmodel.Model.Pipeline
 import Nlmodel.Driver.Instrumented
+import Nlmodel.Driver.Tables
 open Nl
 
 /-- character classes: loaded from the table dumped by the harness from Rust's std
@@ -70,6 +71,7 @@ def handle (cc : CharClass) (line : String) : String :=
     match unhexText h with
     | some t => (evalText cc b.toNat! t).show
     | none => "bad-hex"
+  | ["tables"] => modelTables
   | ["evalx", b, h] =>
     match unhexText h with
     | some t => evalTextX cc b.toNat! t
